@@ -154,6 +154,14 @@ func init() {
 	for _, id := range []string{"C02", "C06"} {
 		extendProp(id, shl, []report.Floor{{Rule: "scanner-helpers", What: "facts", Min: 12}}, func(c *Ctx) { c.ssaScan("scanner-helpers") })
 	}
+	const nd = "nil-deref: on no path of any grammar action a field is read through a pointer that is nil on that path - a local pointer only one branch assigns, a token field no production of the symbol sets (the abstract interpreter of the actions knows which values are nil where); report-positions also requires the token or node an error takes its position from to be there (round 6 seeds C01-17: `$4.(*ast.StmtClass).ExtendsTkn.Position` on the implements carrier; C01-18: `var args *ArgumentList; if $2 != nil {…}; args.X` panics on `new class {}`)."
+	for _, id := range []string{"C01", "C06", "C03"} {
+		extendProp(id, nd, []report.Floor{{Rule: "nil-deref", What: "actions", Min: 1000}},
+			func(c *Ctx) { defer c.cleanup(); c.flows_("nil-deref") })
+	}
+	extendProp("C01", "report-positions (see C06): a panic while building an error report is a crash.",
+		[]report.Floor{{Rule: "report-positions", What: "reports", Min: 4}},
+		func(c *Ctx) { defer c.cleanup(); c.flowRule("report-positions", flowRules["report-positions"]) })
 	extendProp("C14", "presence-oracle: which slots of which node kinds a silently parsed tree may leave empty equals the reviewed table - a name node's kind is told by its tokens (a NameRelative has its `namespace` keyword, a NameFullyQualified its leading separator), and the resolver chooses the rule by kind (seed C14-13: `\\Vendor\\X` in a PHP 5 constant expression built as a NameRelative without the keyword, resolved against the current namespace).",
 		[]report.Floor{{Rule: "presence-oracle", What: "slots", Min: 1100}},
 		func(c *Ctx) { defer c.cleanup(); c.presenceOracle() })
